@@ -18,6 +18,7 @@ import (
 	"fmt"
 	"math"
 	"strings"
+	"sync"
 
 	"github.com/dop251/goja"
 
@@ -51,11 +52,13 @@ var CTX = {
   ctor: function (f) { return new (function () { f(); })(); },
   apply: function (f) { return f.apply(null, [1, 2, 3]); },
   reduce: function (f) { return [1, 2, 3].reduce(function (a, x) { if (x === 3) f(); return a + x; }, 0); },
-  spread: function (f) { return Math.max(1, ...[2, 3], (f(), 4)); }
+  spread: function (f) { return Math.max(1, ...[2, 3], (f(), 4)); },
+  ref: function (f) { var o = {}; o.p ||= (f(), 1); return o; },
+  ref2: function (f) { var o = {}, k = "q"; [o[k] = (f(), 1)] = []; with (o) { q ??= 2; } return o; }
 };
 `
 
-var ctxNames = []string{"top", "map", "forEach", "sort", "gen", "gen2", "getter", "job", "go", "deep", "forof", "tryf", "with_", "args", "tostr", "ctor", "apply", "reduce", "spread"}
+var ctxNames = []string{"top", "map", "forEach", "sort", "gen", "gen2", "getter", "job", "go", "deep", "forof", "tryf", "with_", "args", "tostr", "ctor", "apply", "reduce", "spread", "ref", "ref2"}
 
 // caseT is one fully materialised case.
 type caseT struct {
@@ -67,6 +70,19 @@ type caseT struct {
 	CrArgs [2][2]int // V indices of (a, b) for create(slot)
 	CtxA   []ctxSpec // index 0 (and 1 if Two): creation calls; then one per op / group
 	CtxB   []ctxSpec
+	SrcOverride string   // hand-written program text (pinned witnesses, debugging): used instead of Prog.Source()
+	Expect      []string // pinned witnesses: the event log prescribed by the specification (instead of the model)
+	Pinned      string   // name of the pinned witness
+
+	prg    *goja.Program // compiled source() (shared by both runs; Programs are documented as shareable)
+	prgErr string
+}
+
+func (cs *caseT) source() string {
+	if cs.SrcOverride != "" {
+		return cs.SrcOverride
+	}
+	return cs.Prog.Source()
 }
 
 // ctxSpec: chain of CTX wrappers (outermost first) + terminal ("js": rec(...) in script; "gonext": the driver call is
@@ -90,7 +106,7 @@ type caseJSON struct {
 }
 
 func (cs *caseT) materialise() caseJSON {
-	j := caseJSON{Mode: cs.Mode, Src: cs.Prog.Source(), History: cs.Hist, Groups: cs.AHist, Create: cs.CrArgs, Two: cs.Two}
+	j := caseJSON{Mode: cs.Mode, Src: cs.source(), History: cs.Hist, Groups: cs.AHist, Create: cs.CrArgs, Two: cs.Two}
 	for _, c := range cs.CtxA {
 		j.CtxA = append(j.CtxA, c.String())
 	}
@@ -475,24 +491,42 @@ func (g *grun) noteResume(slot int) {
 	}
 }
 
+var (
+	preludeOnce sync.Once
+	preludePrg  *goja.Program
+)
+
+func prelude() *goja.Program {
+	preludeOnce.Do(func() { preludePrg = goja.MustCompile("prelude.js", genref.Prelude+ctxPrelude, false) })
+	return preludePrg
+}
+
 func runGoja(cs *caseT, ctxs []ctxSpec) *grun {
 	g := &grun{r: gj.NewRuntime(), ids: map[*goja.Object]int{}, diffRegs: map[string]int64{}}
+	g.r.SetMaxCallStackSize(400)
 	defer func() { g.steps = goja.VerifSteps(g.r) }()
 	g.install()
 	r := g.r
-	if !g.outer("prelude", func() (goja.Value, error) { return r.RunString(genref.Prelude + ctxPrelude) }) {
+	if !g.outer("prelude", func() (goja.Value, error) { return r.RunProgram(prelude()) }) {
 		return g
 	}
 	if len(g.events) > 0 {
 		g.failf("harness", "prelude produced events: %v", g.events)
 		return g
 	}
-	src := cs.Prog.Source()
-	if _, err := goja.Compile("case.js", src, false); err != nil {
-		g.compile = err.Error()
+	if cs.prg == nil && cs.prgErr == "" {
+		p, err := goja.Compile("case.js", cs.source(), false)
+		if err != nil {
+			cs.prgErr = err.Error()
+		}
+		cs.prg = p
+	}
+	if cs.prgErr != "" {
+		g.compile = cs.prgErr
 		return g
 	}
-	if !g.outer("program", func() (goja.Value, error) { return r.RunString(src) }) {
+	prg := cs.prg
+	if !g.outer("program", func() (goja.Value, error) { return r.RunProgram(prg) }) {
 		return g
 	}
 	call := 0
@@ -625,6 +659,9 @@ type mrun struct {
 
 func runModel(cs *caseT) *mrun {
 	m := &mrun{}
+	if cs.Expect != nil {
+		return &mrun{events: cs.Expect, stats: map[string]int64{}}
+	}
 	in := genref.New(cs.Prog, modelFuel)
 	defer in.Close()
 	step := func(err error) bool {
@@ -714,16 +751,20 @@ func equalEvents(a, b []string) bool {
 
 // evaluate runs the model and both goja runs and applies the monitors.  st == nil: no evidence is recorded (minimiser).
 func evaluate(cs *caseT, st *core.Stats) core.Result {
-	res := core.Result{Verdict: core.Held, Key: cs.Prog.Source() + "|" + cs.histString()}
+	res := core.Result{Verdict: core.Held, Key: cs.source() + "|" + cs.histString()}
 	m := runModel(cs)
 	ga := runGoja(cs, cs.CtxA)
 	if ga.compile != "" {
-		return core.Result{Verdict: core.Inconclusive, Monitor: "generator-produced-invalid-js", Detail: ga.compile + "\n" + cs.Prog.Source()}
+		return core.Result{Verdict: core.Inconclusive, Monitor: "generator-produced-invalid-js", Detail: ga.compile + "\n" + cs.source()}
 	}
 	gb := runGoja(cs, cs.CtxB)
 	viol := func(monitor, detail string) core.Result {
+		sig := monitor + "|" + cs.source() + "|" + cs.histString()
+		if cs.Pinned != "" {
+			sig = "pinned:" + cs.Pinned
+		}
 		return core.Result{Verdict: core.Violated, NonTrivial: true, Key: res.Key, Monitor: monitor, Detail: detail,
-			Signature: monitor + "|" + cs.Prog.Source() + "|" + cs.histString(), Case: cs.materialise()}
+			Signature: sig, Case: cs.materialise()}
 	}
 	for i, g := range []*grun{ga, gb} {
 		if g.fail != nil {
@@ -798,7 +839,7 @@ func evaluate(cs *caseT, st *core.Stats) core.Result {
 func run(c *core.Ctx) core.Result {
 	cs := genCase(c)
 	if c.Replay {
-		fmt.Printf("--- case (%s) ---\n%s\nhistory: %s\nctxA: %v\nctxB: %v\n", cs.Mode, cs.Prog.Source(), cs.histString(), cs.CtxA, cs.CtxB)
+		fmt.Printf("--- case (%s) ---\n%s\nhistory: %s\nctxA: %v\nctxB: %v\n", cs.Mode, cs.source(), cs.histString(), cs.CtxA, cs.CtxB)
 	}
 	res := evaluate(cs, c.Stats)
 	if c.Replay {
